@@ -411,12 +411,13 @@ def plan_layout(tier, seed, nshards=64):
         parts.append({"alpha": "v0", "nmax": 5, "nconf": 25})
         parts.append({"alpha": "v1", "nmax": 4, "nconf": 11})
     parts.append({"alpha": "seed", "nmax": 3, "nconf": 11, "seed": seed})
+    parts.append({"alpha": "w4", "nmax": 5 if tier == "quick" else 7, "nconf": 11})  # one width: more labels per input
     parts.append({"alpha": "near", "nmax": 3 if tier == "quick" else 4, "nconf": len(NEAR_CONFIGS)})
     for base in BIG_BASES:
         parts.append({"alpha": "big", "base": base, "nmax": 3 if tier == "quick" else 4, "nconf": 5})
     shards = [{"kind": "probe"}]
     for p in parts:
-        ns = nshards if p["alpha"] in ("v0", "v1") else 8
+        ns = nshards if p["alpha"] in ("v0", "v1", "w4") else 8
         for r in range(ns):
             shards.append({"kind": "multisets", "part": p, "mod": ns, "rem": r})
     if tier == "thorough":
@@ -436,6 +437,8 @@ def part_alpha(p):
         return letters("q", 0)
     if p["alpha"] == "v1":
         return letters("t", 1)
+    if p["alpha"] == "w4":
+        return [(q, 4) for q in POS13]
     if p["alpha"] == "near":
         return near_tie_letters()
     if p["alpha"] == "big":
@@ -451,7 +454,7 @@ def part_menu(p):
     return CONFIGS
 
 
-PART_ORDER = {"v0": 0, "v1": 1, "seed": 2, "near": 3, "big": 4}
+PART_ORDER = {"v0": 0, "v1": 1, "seed": 2, "near": 3, "big": 4, "w4": 5}
 SWEEP_WIDTHS = {"all4": lambda i: 4, "alt1-7": lambda i: 1 if i % 2 == 0 else 7, "w2.5": lambda i: 2.5}
 WIDE = {"w400": lambda i: 400}  # heavy blocks: the summed displacement against a bound reaches ~1e7
 SWEEP_CONFIGS = [{}, {"minPos": None}, {"maxPos": 300}, "fit-exact"]
@@ -585,7 +588,7 @@ def snippet_layout(case):
 def bounds(tier, seed):
     return {
         "alphabet": "positions 0..6 step 0.5 x widths {1,4}" + (" (+2.5 at n<=4)" if tier == "thorough" else ""),
-        "max_labels": 4 if tier == "quick" else 5,
+        "max_labels": "4 (5 with one width)" if tier == "quick" else "5 (7 with one width)",
         "configs": (11 if tier == "quick" else 25) + len(DEPENDENT),
         "seeded_slice": {"seed": seed, "letters": seeded_letters(seed)[:4], "nmax": 3},
         "near_tie_targets": NEAR_TIES, "big_magnitudes": list(BIG_BASES),
